@@ -67,6 +67,10 @@ mod assignment_post_conversion_validation_rules {
             // an array that has not been dimensioned; code cannot be generated for it
             return Err(LintError::ArrayNotDefined.at_pos(pos));
         }
+        if let Expression::BuiltInFunctionCall(_, _) = left_side {
+            // e.g. the MID$ statement, which is not supported
+            return Err(LintError::VariableRequired.at_pos(pos));
+        }
         if right_side.can_cast_to(left_side) {
             Ok(())
         } else {
